@@ -1034,3 +1034,96 @@ func importsAddedWithoutMerging(r *an.Run, rule string) {
 	r.Count("places where an import is added", n)
 	r.Min("places where an import is added", 1)
 }
+
+// guessedPackageNameIsAnIdentifier (C11-R7, after F20): for an unnamed import
+// gopatch has to guess under which name the file refers to the package — it
+// decides with that name whether a matched import is still used (and deletes it
+// if not) and whether an added import replaces it. The last element of the path
+// taken raw is not such a name whenever it is not an identifier
+// ("gopkg.in/yaml.v3" → "yaml.v3": never used, so a context import is deleted
+// although yaml.Marshal is still there). So (a) where the import replacer and
+// the clean-up derive a name from an import path they do it through a function
+// of the module — never path.Base / filepath.Base directly — and (b) every
+// value that function returns is cut where the element stops being an
+// identifier (a slice whose upper bound is the result of strings.IndexFunc /
+// IndexAny on the sliced string, or the string itself when that search found
+// nothing).
+func guessedPackageNameIsAnIdentifier(r *an.Run, rule string) {
+	r.Rule(rule)
+	anchors := []*ssa.Function{fn(r, engine, "ImportReplacer.Replace"), fn(r, engine, "ImportsReplacer.Cleanup")}
+	guessers := map[*ssa.Function]bool{}
+	n := 0
+	isBase := func(c ssa.CallInstruction) bool { return an.IsCallTo(c, "path.Base", "path/filepath.Base") }
+	reachesBase := func(g *ssa.Function) bool {
+		for _, h := range helperGroup(g, 2) {
+			for _, c := range an.Calls(h) {
+				if isBase(c) {
+					return true
+				}
+			}
+		}
+		return false
+	}
+	for _, f := range anchors {
+		if f == nil {
+			continue
+		}
+		for _, g := range helperGroup(f, 2) {
+			for _, c := range an.Calls(g) {
+				if isBase(c) && !guessers[g] {
+					// is g itself a guesser (string -> string)? then judged below; otherwise the raw element is used here
+					if g.Signature.Params().Len() == 1 && g.Signature.Results().Len() == 1 && an.ShortType(g.Signature.Results().At(0).Type()) == "string" && g != f {
+						guessers[g] = true
+						continue
+					}
+					n++
+					r.Fail(short(g)+"|raw-last-element", c.Pos(), "%s takes the last element of an import path as the name the file uses for the package: for paths whose last element is not an identifier (gopkg.in/yaml.v3, example.com/foo/v2) that name is never used in the file, and an import that is still needed is deleted", short(g))
+				}
+				if sc := an.StaticCallee(c); sc != nil && an.InModule(sc) && sc.Blocks != nil && sc.Signature.Params().Len() == 1 && sc.Signature.Results().Len() == 1 &&
+					an.ShortType(sc.Signature.Results().At(0).Type()) == "string" && an.ShortType(sc.Signature.Params().At(0).Type()) == "string" && reachesBase(sc) {
+					guessers[sc] = true
+				}
+			}
+		}
+	}
+	for g := range guessers {
+		n++
+		good := len(an.Returns(g)) > 0
+		for _, ret := range an.Returns(g) {
+			for _, leaf := range phiLeaves(ret.Results[0]) {
+				cut := false
+				if sl, ok := leaf.(*ssa.Slice); ok && sl.High != nil {
+					if c, ok := sl.High.(*ssa.Call); ok && an.IsCallTo(c, "strings.IndexFunc", "strings.IndexAny", "strings.IndexByte", "strings.IndexRune") && len(c.Call.Args) > 0 && c.Call.Args[0] == sl.X {
+						cut = true
+					}
+				}
+				if !cut {
+					// the uncut string: only behind "the search found nothing"
+					for _, b := range g.Blocks {
+						iff, ok := b.Instrs[len(b.Instrs)-1].(*ssa.If)
+						if !ok {
+							continue
+						}
+						cmp, ok := iff.Cond.(*ssa.BinOp)
+						if !ok {
+							continue
+						}
+						c, ok := cmp.X.(*ssa.Call)
+						if !ok || !an.IsCallTo(c, "strings.IndexFunc", "strings.IndexAny", "strings.IndexByte", "strings.IndexRune") || len(c.Call.Args) == 0 || c.Call.Args[0] != leaf {
+							continue
+						}
+						if k, isc := an.ConstInt(cmp.Y); isc && (cmp.Op == token.GEQ && k == 0 || cmp.Op == token.LSS && k == 0 || cmp.Op == token.NEQ && k == -1 || cmp.Op == token.EQL && k == -1 || cmp.Op == token.GTR && k == -1) {
+							cut = true
+						}
+					}
+				}
+				if !cut {
+					good = false
+				}
+			}
+		}
+		r.Check(good, short(g)+"|cut-at-non-identifier", g.Pos(), "%s cuts the path element where it stops being an identifier (\"yaml.v3\" → \"yaml\"): what it returns can be the name the file uses", short(g))
+	}
+	r.Count("places where a package name is guessed from an import path", n)
+	r.Min("places where a package name is guessed from an import path", 1)
+}
